@@ -3,8 +3,9 @@ CONSTANTS
   Reqs <- Reqs1
   Parts <- P2
   RegAfter <- RegFirst
+  KeyOf <- IdKey
   Dups = {}
   LookupAtomic = TRUE
   FailIdx = {}
-INVARIANTS NoSpurious MatchOnce NoLoss EmitSized
+INVARIANTS NoSpurious MatchOnce NoLoss RightType EmitSized
 CHECK_DEADLOCK FALSE
